@@ -9,6 +9,10 @@
   * `C12_write_refused` / `C12_write_refused_uns`: a refused `io->write` leaves the writing machine's
     state untouched, so the same byte is offered again (`C12_retry_same_byte`);
   * `C12_writers`: only a machine in FLUSH_IO_WRITE offers bytes (from C11).
+  * `C12_io_sites_generated` (translator item T6): the reading states of the model are exactly the
+    states whose C function begins with `if (read_cmd_char(self) == 0) return CAT_STATUS_OK;`, and
+    `io->write` is called from FLUSH_IO_WRITE of either machine only — regenerated from the call
+    sites in `src/cat.c` on every run.
   * `C12_refused_call_is_noop`: a whole `cat_service` call in which every io attempt is refused (the
     command machine reads nothing or its write is refused; the unsolicited machine has nothing to
     do or its write is refused) leaves the world exactly as it was, apart from the log of that call;
@@ -26,6 +30,7 @@
 import CatVerif.Proofs.Quiesce
 import CatVerif.Proofs.Log
 import CatVerif.Proofs.Stutter
+import CatVerif.Proofs.DispatchIO
 namespace Cat
 open St
 
@@ -86,6 +91,11 @@ theorem C12_writers (D : Desc) (s : St) (i : SvcIn) :
     (s.state ≠ .flushWrite → tr .wrC (commandService D s i).1.log = tr .wrC s.log) ∧
     (s.ustate ≠ .flushWrite → tr .wrU (unsolicitedEventsService D s i).1.log = tr .wrU s.log) :=
   ⟨commandService_no_write D s i, unsolicitedEventsService_no_write D s i⟩
+
+/-- the io call sites of the source are where the model reads and writes (T6) -/
+theorem C12_io_sites_generated :
+    (∀ st, Reading st ↔ st ∈ Gen.readingStates) ∧ Gen.writingStates = [.flushWrite] ∧ Gen.uwritingStates = [.flushWrite] :=
+  ⟨reading_generated, writing_generated.1, writing_generated.2⟩
 
 /-- a call in which every io attempt is refused changes nothing but the log of that call -/
 theorem C12_refused_call_is_noop (D : Desc) (s : St) (i : SvcIn) (hu : StutterU D s i) (hc : StutterC D s i) :
